@@ -36,6 +36,49 @@ CLAIMS = {
     },
 }
 
+CLAIMS["C12"] = {
+    "text": "Sixteen Coq theorems (Props/C12.v): for ECS, APL item, cookie, label, name, tag, digit strings, non-empty list: a "
+            "semantic invariant stated at bit level (prefix within the family size and no address bit beyond it via N.testbit, "
+            "server cookie 8..=32, label 1..=63, name <= 255 wire octets, ...) holds after every successful constructor, is "
+            "preserved by every public setter/append, hence holds after EVERY finite call history (induction over the op list), "
+            "and every failing call leaves the value unchanged; the octet/mask computation of check_ipv4/6_addr is proved "
+            "equivalent to the bit-level statement and never indexes out of range; values produced by the decoder satisfy the "
+            "invariants too. Tie: H cases (exhaustive short histories over boundary arguments + random long ones) compared state "
+            "by state, plus an independent Python evaluation of the constraints.",
+    "note": "Address arguments are assumed to be 4/16 octets < 256 (guaranteed by Rust's Ipv4Addr/Ipv6Addr types). " + NOTE_COMMON,
+    "technique": "Coq proof (invariant + induction over call histories, bit-level lemma by finite enumeration) + differential correspondence on histories",
+    "ref": "DESIGN.md section 7 C12",
+}
+CLAIMS["C06"] = {
+    "text": "Eleven Coq theorems (Props/C06.v) about the model of Encoder::domain_name and the buffer operations around it: a "
+            "masked invariant (every index entry and every logged name expands, in EVERY buffer that agrees on the name octets, "
+            "to the name written up to ASCII case, in exactly its recorded depth <= 16, through pointers that point backwards, "
+            "below 16384, at label starts of earlier written names); preserved by appends, by patches of unmasked length slots "
+            "and by the name writer; the name writer never fails for legal names except for the 65,536-octet message limit "
+            "(no Compression / MaxRecursion error reachable); lifted to ALL histories of WriteName / WriteRaw / Reserve / Patch "
+            "operations by induction (unbounded); the pinned pre-fix compress() is refuted on 18 nested names. The reference "
+            "expansion Spec/Names.v is independent of the decoder model. Tie: E Dns cases (exhaustive short name sequences, nesting "
+            "1..64, placements around 0x3FFF/0x4000, long sequences) byte-exact vs the model; reference re-expansion of the "
+            "implementation's bytes.",
+    "note": "The statement over the whole enc_dns (every record writer is an instance of the history language) is proved for "
+            "enc_question and the primitives; the remaining writers are covered by the byte-exact correspondence. " + NOTE_COMMON,
+    "technique": "Coq proof (state invariant over encoder histories, induction) + byte-exact differential correspondence + reference expansion oracle",
+    "ref": "DESIGN.md section 7 C06",
+}
+CLAIMS["C07"] = {
+    "text": "Twelve Coq theorems (Props/C07.v) about the model of Decoder::domain_name: for EVERY message, window, offset and "
+            "pointer graph it terminates within its fixed fuel (never out of fuel, never a panic), examines at most 544 octets "
+            "per name, returns only names of <= 255 wire octets with labels of 1..=63 octets, follows at most 17 pairwise "
+            "distinct pointer targets; a name whose reference pointer chain is cyclic or needs more than 17 hops is always an "
+            "error; an accepted name is exactly the reference expansion (Spec/Names.v) of the octets. Since every name consumes "
+            ">= 1 octet of its window the whole-message work is <= 545*len (argument in DESIGN.md; the per-name bound is the "
+            "proved part). Tie: D cases over all pointer graphs of <= 5 nodes, chains 1..64, fans, mazes, with the hook's octet "
+            "counter compared EXACTLY with the model's cost and a budget that turns a loop into a PANIC line.",
+    "note": "Whole-message linear bound: per-name constant proved, the summation over names argued in DESIGN.md and checked by the oracle cost <= 560*len+2048. Wall-clock time and allocation are not modelled. " + NOTE_COMMON,
+    "technique": "Coq proof (termination measure, simulation against a reference expansion, periodicity of cyclic chains) + exact cost correspondence",
+    "ref": "DESIGN.md section 7 C07",
+}
+
 REASON_PENDING = "check not built yet (work in progress; see DESIGN.md section 10)"
 
 
